@@ -41,7 +41,7 @@ Produced(p, n) ==
       [] OTHER -> n
 
 TNew == /\ Ev.e = "New" /\ ~Has(inst, Ev.id)
-        /\ inst' = Put(inst, Ev.id, [p |-> Ev, xr |-> <<>>, xi |-> <<>>, nin |-> 0, prod |-> 0, phi |-> -1])
+        /\ inst' = Put(inst, Ev.id, [p |-> Ev, xr |-> <<>>, xi |-> <<>>, nin |-> 0, prod |-> 0, phi |-> (IF "phi_hint" \in DOMAIN Ev THEN Ev.phi_hint ELSE -1)])
 
 (* expected S*output number j (0-based) in exact mode; real part / imaginary part *)
 ExpRe(p, xr, xi, j, phi) ==
@@ -72,11 +72,14 @@ TProcessExact ==
                    xi == IF IsCplx(p) THEN s.xi \o Ev.fi ELSE <<>>
                    k == Produced(p, Len(xr))
                    cnt == k - s.prod
+                   silent == (\A i \in 1..Len(xr) : xr[i] = 0) /\ (\A i \in 1..Len(xi) : xi[i] = 0)
                IN /\ Ev.o = "ret"
                   /\ Len(Ev.yr) = cnt
                   /\ Ev.exact = TRUE                 \* driver: every output was exactly representable on the grid
+                  \* nothing but zeros so far: every phase predicts zeros, so the phase stays open instead of forking the
+                  \* behaviour once per candidate (147/160 has tens of thousands of them)
                   /\ \E f \in (IF IsMulti(p) /\ ~Bypass(p) /\ s.phi = -1
-                               THEN PhaseCandidates(RL(p), RM(p), p.h) ELSE {s.phi}) :
+                               THEN (IF silent THEN {-1} ELSE PhaseCandidates(RL(p), RM(p), p.h)) ELSE {s.phi}) :
                         \* "= TRUE": evaluated as one expression (TLC would otherwise recurse per element)
                         /\ (\A j \in 1..cnt : Ev.yr[j] = ExpRe(p, xr, xi, s.prod + j - 1, f)) = TRUE
                         /\ (IsCplx(p) => \A j \in 1..cnt : Ev.yi[j] = ExpIm(p, xr, xi, s.prod + j - 1)) = TRUE
